@@ -245,6 +245,55 @@ Section Run.
     fold_left recv_frame frames {| r_expect := expect; r_closed := false; r_out := [] |}.
 End Run.
 
+(** * The shell client adapter
+
+    [health.ShellStreamAdapter]: decrypted shell output is handed over through
+    a channel of capacity 64 ([receive: make(chan []byte, 64)]).
+    [PushReceive] - called from the peer connection's frame processor - waits
+    at most 100 ms for room and then DROPS the message ("Buffer full after
+    brief wait - drop data").  [APop] is the WebSocket writer taking one
+    message. *)
+
+Inductive aop := APush (m : bytes) | APop.
+
+Record astate := { a_queue : list bytes; a_out : list bytes }.
+
+Definition adapter_cap : N := 64.
+
+Definition adapter_step (st : astate) (o : aop) : astate :=
+  match o with
+  | APush m =>
+      if N.of_nat (length (a_queue st)) <? adapter_cap
+      then {| a_queue := a_queue st ++ [m]; a_out := a_out st |}
+      else st
+  | APop =>
+      match a_queue st with
+      | [] => st
+      | m :: q => {| a_queue := q; a_out := a_out st ++ [m] |}
+      end
+  end.
+
+Definition adapter_run (ops : list aop) : astate :=
+  fold_left adapter_step ops {| a_queue := []; a_out := [] |}.
+
+Fixpoint pushed (ops : list aop) : list bytes :=
+  match ops with
+  | [] => []
+  | APush m :: r => m :: pushed r
+  | APop :: r => pushed r
+  end.
+
+(** the consumer keeps up: whenever a message arrives there is room *)
+Fixpoint never_full (st : astate) (ops : list aop) : bool :=
+  match ops with
+  | [] => true
+  | o :: r =>
+      match o with
+      | APush _ => (N.of_nat (length (a_queue st)) <? adapter_cap) && never_full (adapter_step st o) r
+      | APop => never_full (adapter_step st o) r
+      end
+  end.
+
 (** * The same on sizes only (oracle of the correspondence check) *)
 
 Definition sz_ranges (m size : N) : option (list N) := option_map (map snd) (ranges m size).
